@@ -93,6 +93,8 @@ func gen(tier string, rng *h.Rng, emit func(string)) {
 	}
 	// full pipelines through their real entry points
 	emit("full p=grouping n=3 fault=none cancel=never reps=1")
+	emit("full p=grouping mode=dup bt=0 peers=2 reps=2")
+	emit("full p=grouping mode=dup bt=0 peers=3 reps=1")
 	emit("full p=query.sys role=submitter bt=1 peers=1 reps=2")
 	emit("full p=query.sys role=member bt=1 peers=0 reps=2")
 	emit("full p=query.sys role=submitter bt=0 peers=1 reps=10")
